@@ -28,6 +28,15 @@ Definition pull_gate (under_min over_max : bool) (size : Z) (bavail : option Z) 
   else if over_max then (false, reserved)
   else reserve size false bavail reserved.
 
+(* The two node properties the gate reads (StorageNode.under_min / check_over_max), on exact quantities (bytes; the GiB values of
+   the index are these divided by 2^30): free space unknown never blocks; no limit, or a limit <= 0, never blocks; a node AT its
+   limit is full. *)
+Definition node_under_min (avail : option Z) (min_avail : Z) : bool := match avail with None => false | Some a => a <? min_avail end.
+Definition node_over_max (total : Z) (max_total : option Z) : bool :=
+  match max_total with None => false | Some m => if m <=? 0 then false else m <=? total end.
+Definition pull_gate_n (avail : option Z) (min_avail total : Z) (max_total : option Z) (size : Z) (bavail : option Z) (reserved : Z) : bool * Z :=
+  pull_gate (node_under_min avail min_avail) (node_over_max total max_total) size bavail reserved.
+
 (* history of one node: dispatches and task ends *)
 Inductive ev :=
 | Dispatch (id : N) (size : Z) (under_min over_max : bool) (bavail : option Z)
